@@ -207,3 +207,58 @@ def _rv_locals(rv):
                 walk(y)
     walk(rv)
     return out
+
+
+def field_writers(facts, adt_path, fields):
+    """{(function key, field, how)} for every body that assigns, mutably borrows or moves out a field of the ADT, or builds the ADT."""
+    from .dataflow import adt_of_type
+    out = set()
+    needles = ['"%s"' % f for f in fields] + ['"%s"' % adt_path]
+    for body in facts.bodies.mentioning(*needles):
+        for bb in body.live_blocks:
+            for st in body.stmts(bb):
+                if st[0] != "A":
+                    continue
+                if st[1][1]:
+                    flds = [e for e in st[1][1] if isinstance(e, list) and e[0] == "f"]
+                    if flds and flds[0][2] in fields and adt_of_type(body.local_ty(st[1][0])) == adt_path:
+                        out.add((fn_short(body.path), flds[0][2], "assign"))
+                rv = st[2]
+                if rv[0] == "ref" and rv[1] == "m":
+                    flds = [e for e in rv[2][1] if isinstance(e, list) and e[0] == "f"]
+                    if flds and flds[0][2] in fields and adt_of_type(body.local_ty(rv[2][0])) == adt_path:
+                        out.add((fn_short(body.path), flds[0][2], "&mut"))
+                if rv[0] == "use" and rv[1][0] == "m":
+                    flds = [e for e in rv[1][1][1] if isinstance(e, list) and e[0] == "f"]
+                    if flds and flds[0][2] in fields and adt_of_type(body.local_ty(rv[1][1][0])) == adt_path:
+                        out.add((fn_short(body.path), flds[0][2], "move-out"))
+                if rv[0] == "agg" and rv[1][0] == "adt" and rv[1][1] == adt_path:
+                    out.add((fn_short(body.path), "*", "construct"))
+    return out
+
+
+def callers_keys(facts, callee_path, crate_prefix="scylla"):
+    return sorted({fn_short(b.path) for b, bb in facts.callers_of(callee_path) if bb in b.live_blocks and b.crate.startswith(crate_prefix)})
+
+
+def guard_across_yield(body, type_needle="MutexGuard"):
+    """[(local, def_bb, yield_bb)] where a local whose type contains `type_needle` may still be held at a Yield"""
+    out = []
+    ys = set(yields(body))
+    if not ys:
+        return out
+    for l in range(len(body.locals)):
+        ty = body.local_ty(l)
+        if type_needle not in ty or ty.startswith("&") or ty.startswith("*"):
+            continue
+        drops = [bb for bb in body.live_blocks if body.term(bb)[0] == "drop" and body.term(bb)[1][0] == l and not body.term(bb)[1][1]]
+        # moved out also ends the hold
+        moves = [bb for bb, kind, op in uses_of_local(body, l) if op is not None and op[0] == "m"]
+        for d in body.defs.get(l, []):
+            if d[0] not in ("call", "stmt"):
+                continue
+            dbb = d[1]
+            reach = body.reachable_after(dbb, removed_nodes=set(drops) | set(moves))
+            for y in ys & reach:
+                out.append((l, dbb, y))
+    return out
